@@ -25,6 +25,8 @@ def run(chk):
     chk.rule("R1.ir-globals", "IR cross-check: every store whose address is a module global lies in a global initialiser")
     chk.rule("R2.vertex-writers", "functions that store through a pointer into struct Vertex are exactly the "
              "path-loading functions, and none of them is reachable from the execution/output phase")
+    chk.rule("R2b.container-read-only", "ReuseableDataContainer64 has no mutable member, and no function outside the class stores through a "
+             "pointer derived from one of its members")
     chk.rule("R2.reuse-copies-minima", "AddReuseableData creates its own LocalMinima objects")
     chk.rule("R3.externals", "every undefined function reachable from library code is in the frozen list of thread-safe externals")
     chk.rule("DET.relational-comparisons", "no relational comparison of pointers, no unordered containers")
@@ -34,6 +36,7 @@ def run(chk):
         nv = e1.rule_r1_ast(db, chk, cfg)
         e1.rule_r1_ir(mod, chk, cfg)
         e1.rule_r2(mod, chk, cfg)
+        e1.rule_r2b(db, mod, chk, cfg)
         e1.rule_r3(mod, chk, cfg)
         e1.rule_pointer_order(db, chk, cfg)
     chk.floor("R1.static-storage", 20 * len(cfgs))
